@@ -24,7 +24,7 @@ RULE = ("Blocked leg (CPython 3.9-3.12): Hypothesis-generated thread bodies of c
         "die, the call does not raise, no reported frame belongs to the inspector or the decoy thread, and the contexts "
         "reported for the scripted frame are consistent with ONE instruction position (each manager was created for the line "
         "its context names, the nesting is one that is active at a single position, loop managers belong to one iteration) - or "
-        "the snapshot was rejected (InspectionWarning / RuntimeError from inspect_frame). Non-trivial: a blocked body of depth >= "
+        "the snapshot was rejected (InspectionWarning / RuntimeError from inspect_frame); for inspect_frame itself every value-stack entry of the returned snapshot is something the scripted frame puts there (bound __exit__ of one of its managers, loop iterator, empty slot) and those managers are such a nesting. Non-trivial: a blocked body of depth >= "
         "2 with >= 2 managers; a schedule cell in which the target moved while the inspector was inside the snapshot; distinct = "
         "distinct body / cell.")
 ASSUMPTIONS = [
